@@ -1481,6 +1481,7 @@ class StreamTokenizer:
                         return self._process_end_of_detection()
                     self._data = []
                     self._silence_length = 0
+                    self._contiguous_token = False
                 else:
                     self._data.append(frame)
                     self._silence_length += 1
